@@ -364,6 +364,8 @@ class Calls(Interp):
             self.assume(z3.Implies(z3.Not(p), z3.Not(z3.substitute(u.body_main, *zip(u.vars, sks)))))
             for side in u.side:
                 self.assume(z3.substitute(side, *zip(u.vars, sks)))
+            for ty_, tmpl in u.touches:
+                self.touch(ty_, z3.substitute(tmpl, *zip(u.vars, sks)))
         return VBool(p)
 
     def spec_type(self, node):
@@ -435,7 +437,34 @@ class Calls(Interp):
         hook = self.reg.constructors.get(name)
         if hook is not None:
             return hook(self, args, kwargs)
+        if name in self.reg.opaque_classes:
+            return self.construct_opaque(name, args, kwargs)
         raise Unsupported("construction of %s" % name)
+
+    def construct_opaque(self, name, args, kwargs):
+        """Opaque class whose __init__ only stores its parameters into same-named attributes (checked on the real source)."""
+        mod = self.reg.opaque_classes[name]
+        init = self.src.find_method(mod, name, "__init__")
+        if init is None:
+            raise Unsupported("opaque class %s has no __init__" % name)
+        params = init.params[1:]
+        for st in S.strip_body(init.node.body):
+            ok = (isinstance(st, ast.Assign) and len(st.targets) == 1 and isinstance(st.targets[0], ast.Attribute)
+                  and isinstance(st.targets[0].value, ast.Name) and st.targets[0].value.id == "self"
+                  and isinstance(st.value, ast.Name) and st.value.id == st.targets[0].attr and st.value.id in params)
+            if not ok:
+                raise Unsupported("__init__ of opaque class %s is not a plain field initialiser" % name)
+        binding = self.bind_params(init, [VNone] + list(args), kwargs)
+        o = self.fresh("new_" + name, ObjSort)
+        self.assume(o != PyNone)
+        self.assume(self.class_pred(name)(o))
+        for p_ in params:
+            a = self.reg.attrs.get(p_)
+            if a is None:
+                raise Unsupported("attribute %s of opaque class %s has no declared type" % (p_, name))
+            f = z3.Function("attr_" + p_, ObjSort, a[0].sort())
+            self.assume(f(o) == self.to_term(binding[p_], a[0]))
+        return VObj(o, name)
 
     # ------------------------------------------------------------------ builtins
     def call_builtin(self, name, args, kwargs, node):
@@ -480,6 +509,8 @@ class Calls(Interp):
 
     def bi_collections_deque(self, args, kwargs, node):
         if args:
+            if isinstance(args[0], VCont) and isinstance(self.cont(args[0]), OrdSetV):
+                return self.new_box(self.cont(args[0]))
             raise Unsupported("deque(x)")
         return self.new_box(EmptyV("deque"))
 
@@ -766,10 +797,35 @@ class Calls(Interp):
                 return self.in_state(snap.snapshot(), {}, self.old_state, f)
             self.injlist_facts(lst, member)
             return self.new_box(lst)
+        # (a') a recency order filtered by a pure predicate -> recency order (same stamps)
+        if isinstance(c, OrdSetV) and isinstance(n.elt, ast.Name) and n.elt.id == var:
+            mem2 = self.fresh("fmem", c.mem.sort())
+            cnt2 = self.fresh("fcount", z3.IntSort())
+            self.assume(z3.And(cnt2 >= 0, cnt2 <= c.count))
+            snap = self.st.snapshot()
+            env0 = dict(self.st.env)
+            mem = c.mem
+
+            def member2(k):
+                def f():
+                    self.st.env = dict(env0)
+                    self.st.env[var] = self.from_term(k, c.ty.k)
+                    conds = [self.truth(self.ev(x)) for x in g.ifs]
+                    return z3.And(mem[k], *conds)
+                return self.in_state(snap.snapshot(), {}, self.old_state, f)
+            self.add_universal([c.ty.k], lambda k: mem2[k] == member2(k), "filtered-order")
+            return self.new_box(OrdSetV(c.ty, mem2, c.stamp, cnt2, c.clock))
         # (b) pure map over a list
         if isinstance(c, ListV) and not g.ifs:
             try:
                 return self.pure_map(n, var, c)
+            except Unsupported as e:
+                if "specification" not in str(e) and "spec mode" not in str(e):
+                    raise
+        # (b') pure filter(+map) over a list: result characterised through the ghost rank array
+        if isinstance(c, ListV) and g.ifs:
+            try:
+                return self.pure_filter(n, g, var, c)
             except Unsupported as e:
                 if "specification" not in str(e) and "spec mode" not in str(e):
                     raise
@@ -795,6 +851,45 @@ class Calls(Interp):
         n_ = c.n
         self.add_universal([TInt], lambda i: z3.Implies(z3.And(0 <= i, i < n_), arr[i] == self.to_term(elt(i), ety)), "map")
         return self.new_box(ListV(TList(ety), arr, c.n))
+
+    def pure_filter(self, n, g, var, c):
+        snap = self.st.snapshot()
+        env0 = dict(self.st.env)
+
+        def at(i, what):
+            def f():
+                self.st.env = dict(env0)
+                self.st.env[var] = self.from_term(c.arr[i], c.ty.e)
+                if what == "cond":
+                    return z3.And(*[self.truth(self.ev(x)) for x in g.ifs])
+                return self.ev(n.elt)
+            return self.in_state(snap.snapshot(), {}, self.old_state, f)
+        probe = self.fresh("fi", z3.IntSort())
+        ety = self.type_of(at(probe, "elt"))
+        arr = self.fresh("filt", z3.ArraySort(z3.IntSort(), ety.sort()))
+        rank = self.fresh("rank", z3.ArraySort(z3.IntSort(), z3.IntSort()))
+        n_ = c.n
+        self.touch(TInt, z3.IntVal(0))
+        self.touch(TInt, n_)
+        self.assume(rank[0] == 0)
+        self.add_universal([TInt], lambda i: z3.Implies(z3.And(0 <= i, i < n_), z3.And(
+            rank[i + 1] == rank[i] + z3.If(at(i, "cond"), 1, 0),
+            z3.Implies(at(i, "cond"), arr[rank[i]] == self.to_term(at(i, "elt"), ety)))), "filter-step")
+        # derived by induction from the step rule (trusted): ranks are monotone, hence bounded by rank[n]
+        self.add_universal([TInt], lambda i: z3.Implies(z3.And(0 <= i, i <= n_), z3.And(0 <= rank[i], rank[i] <= rank[n_])), "filter-rank-bounds")
+        lst = ListV(TList(ety), arr, rank[n_])
+        lst.rank = rank
+        return self.new_box(lst)
+
+    def sp_rank(self, n):
+        """rank(filtered_list, i): how many of the first i source elements passed the filter."""
+        l = self.cont(self.ev(n.args[0]))
+        r = getattr(l, "rank", None)
+        if r is None:
+            raise Unsupported("rank() on a list that is not a filter comprehension")
+        i = self.ev(n.args[1])
+        self.touch(TInt, i.t)
+        return VInt(r[i.t])
 
     def comp_as_loop(self, n, g, it):
         res = "_comp%d" % self._bump()
